@@ -292,6 +292,16 @@ func runC11x(c C11Case, cs *kit.CaseStats, info *c11Info) error {
 		}
 	}()
 	quietOpts := []syncer.Option{syncer.WithSyncInterval(netSyncInterval), syncer.WithPeerDiscoveryInterval(time.Hour), syncer.WithMaxInboundPeers(16), syncer.WithMaxOutboundPeers(16)}
+	// The half-open-stream scenario lets the honest chain grow after the victim
+	// has marked the honest peers synced, so the growth has to reach the victim by
+	// announcement - which exists for v2 blocks only (a relayed header that
+	// attaches to the receiver's tip triggers no download, the v1 relay RPCs are
+	// gone; same domain rule as in C12). With a v1 honest tip the scenario is
+	// dropped and the case runs as a plain one.
+	if c.Slow != nil && H.Block.V2 == nil {
+		c.Slow = nil
+		cs.Class("slowloris-dropped:honest-tip-is-v1(not-announceable)")
+	}
 	honestStart := H
 	if c.Slow != nil {
 		for k := max(1, c.Slow.Late); k > 0 && honestStart.Parent != nil && honestStart.Parent.Idx >= 0; k-- {
